@@ -4,6 +4,7 @@ import (
 	"fmt"
 	"go/types"
 	"regexp"
+	regexpsyntax "regexp/syntax"
 	"sort"
 	"strings"
 
@@ -356,6 +357,8 @@ func (c *Ctx) pathFieldRoles(pathT *types.Named) [2]string {
 
 // ---------------------------------------------------------------- O2 regex.whole-name
 
+var constWholeRe = regexp.MustCompile(`^(\(\?[imsU]*\))?\^\((\?:)?(.*)\)\$$`)
+
 var okPrefixRe = regexp.MustCompile(`^(\(\?[imsU]*\))?\^\((\?:)?$`)
 
 // RegexWholeName: C07.O2 - every pattern compiled for a permission entry is (?i)^( <pattern> )$.
@@ -408,6 +411,21 @@ func wholeNameShape(sh strShape) string {
 			continue
 		}
 		toks = append(toks, t)
+	}
+	if len(toks) == 1 && !toks[0].Arg && !toks[0].Taint {
+		// a fully constant pattern (the built-in "everything" default): judged as written - flags, anchored group, a valid
+		// expression inside, end anchor
+		m := constWholeRe.FindStringSubmatch(toks[0].Const)
+		if m == nil {
+			return "constant pattern is not of the form (?i)^(<expr>)$"
+		}
+		if _, err := regexpsyntax.Parse(m[3], regexpsyntax.Perl); err != nil {
+			return "constant pattern does not enclose a valid expression"
+		}
+		if !strings.Contains(m[1], "i") && !strings.HasPrefix(m[3], "(?i)") {
+			return "case-insensitive flag missing"
+		}
+		return ""
 	}
 	if len(toks) != 3 || toks[0].Arg || toks[0].Taint || !(toks[1].Arg || toks[1].Taint) || toks[2].Arg || toks[2].Taint {
 		return "not of the form literal-prefix <pattern> literal-suffix"
